@@ -43,6 +43,6 @@ MANIFEST_ENTRY = dict(
     category='other',
     engine='bounded',
     technique='sidecar contracts on the real functions: wiring / closed-form obligations from the AST discharged by z3 and the ring normaliser where the functions are within reach; bounded run-time contracts with independent oracles for the rest (never counted as proved)',
-    text='Discharged from the real source on every run (all values, stated small shapes): Numerics.trapz rule; _from_phi_1D_direct / _2D_direct entry-wise + total = trapezoid mass; _from_phi_1D_analytic, cached_dbeta, _from_phi_{2,3,4,5}D_linalg = tensor product of the exact piecewise-linear sampling operator with each axis\'s own sample size (betainc uninterpreted); _from_phi_{2,3,4}D_admix_props executed with a symbolic proportion matrix; memo keys of the sampling helpers; from_phi dispatch, arguments, labels, extrap_x (1-4 D); inbreeding argument roles. Bounded run-time contracts (never counted as proved): from_phi on every path against exact polynomial integration of the binomial kernel (1-5 dimensions), mass, projection and path agreement, inbreeding sampling.',
+    text='Discharged from the real source on every run (all values, stated small shapes): Numerics.trapz rule; the 1-D inbreeding sampler (every entry, BetaBinomConvolution uninterpreted); _from_phi_1D_direct / _2D_direct entry-wise + total = trapezoid mass; _from_phi_1D_analytic, cached_dbeta, _from_phi_{2,3,4,5}D_linalg = tensor product of the exact piecewise-linear sampling operator with each axis\'s own sample size (betainc uninterpreted); _from_phi_{2,3,4}D_admix_props executed with a symbolic proportion matrix; memo keys of the sampling helpers; from_phi dispatch, arguments, labels, extrap_x (1-4 D); inbreeding argument roles. Bounded run-time contracts (never counted as proved): from_phi on every path against exact polynomial integration of the binomial kernel (1-5 dimensions), mass, projection and path agreement, inbreeding sampling.',
     note='bounded: see coverage.bounded.drivers[].bound in the evidence file for the exact domain of every driver',
 )
